@@ -47,6 +47,7 @@ from abc import abstractmethod
 
 import column
 import depend
+import objtypes
 import records
 import relation
 from sort_key import make_sort_key
@@ -108,7 +109,14 @@ class LookupMapColumn(NoValueColumn):
     cause the LookupMapColumn to be invalidated for the corresponding rows, and brought up to date
     during formula recomputation by calling this method. It shold take O(1) time per affected row.
     """
-    affected_keys = self._mapping.update_record(rec)
+    try:
+      affected_keys = self._mapping.update_record(rec)
+    except objtypes.CellError:
+      # A key cell that holds an error gives the row no key at all (as when the document is
+      # loaded with the error already there): drop the keys it was indexed under, then report.
+      affected_keys = {k for k in self._mapping.remove_row_id(rec._row_id) if k is not None}
+      self._relation_tracker.invalidate_affected_keys(affected_keys)
+      raise
     self._relation_tracker.invalidate_affected_keys(affected_keys)
 
   def _do_fast_empty_lookup(self):
